@@ -53,7 +53,14 @@ type C03Case struct {
 	// Others is the number of other, well-formed containers read by the same query in the
 	// end-to-end pass (0: the stream is read alone; more: it is one input of the merge).
 	Others int `json:"others,omitempty"`
+	// EndUnexpected: the transport ends the stream with io.ErrUnexpectedEOF instead of io.EOF
+	// (a connection that went away, as net/http reports it). Where the stream is cut decides,
+	// not how the transport words it.
+	EndUnexpected bool `json:"end_unexpected,omitempty"`
 }
+
+// c03EndUnexpected is set by the check around its calls (a test binary decides one case at a time).
+var c03EndUnexpected bool
 
 func c03FormatTS(ts int64, f int) string {
 	t := time.Unix(0, ts).UTC()
@@ -142,7 +149,7 @@ func c03Encode(c C03Case) (stream []byte, frameStarts []int) {
 }
 
 func c03RunOnce(stream []byte, frag []int, errAt int) (recs []c03Ref, err error, closed bool) {
-	rd, d := fakedocker.NewReader(stream, frag, errAt)
+	rd, d := fakedocker.NewReaderEnding(stream, frag, errAt, c03EndUnexpected)
 	it := dockerlog.ParseLog(rd, otelstorage.Attrs(pcommon.NewMap()))
 	var r logstorage.Record
 	for it.Next(&r) {
@@ -195,7 +202,7 @@ func c03Compare(stream []byte, frag []int, errAt int, what string) *evid.Violati
 // contributes exactly its records.
 func c03E2E(stream []byte, frag []int, errAt int, others int, what string) *evid.Violation {
 	want, wantErr := c03RefDecode(stream, errAt)
-	d := &fakedocker.Daemon{}
+	d := &fakedocker.Daemon{EndUnexpected: c03EndUnexpected}
 	ct := dl.Ctr("id0", "c0", nil, nil)
 	ct.Log, ct.Frag, ct.ReadErrAt = stream, frag, errAt
 	d.Containers = append(d.Containers, ct)
@@ -269,6 +276,9 @@ func c03Check(c C03Case) (r evid.Result) {
 		stream, starts = c03Encode(c)
 	}
 	_ = starts
+	c03EndUnexpected = c.EndUnexpected
+	defer func() { c03EndUnexpected = false }()
+	r.Class(c.EndUnexpected, "ends-with-unexpected-EOF")
 	r.Class(true, "fault="+c.Fault)
 	r.Class(len(c.Recs) >= 2, "recs>=2")
 	r.Class(len(stream) > 65536, "stream>64KiB")
@@ -484,6 +494,7 @@ func c03Gen(t *rapid.T) C03Case {
 		}
 	}
 	c.Others = rapid.SampledFrom([]int{0, 0, 1, 2, 3}).Draw(t, "others")
+	c.EndUnexpected = rapid.IntRange(0, 3).Draw(t, "ends-with-unexpected-eof") == 0
 	return c
 }
 
